@@ -300,6 +300,10 @@ func (d *pgDriver) pending() []string {
 		for e := l.Front(); e != nil; e = e.Next() {
 			v := reflect.ValueOf(e.Value)
 			if v.Kind() == reflect.Struct && v.Type().Name() == "queryPacket" {
+				// entries that only mark where the database sends ReadyForQuery are not statements
+				if sp := v.FieldByName("syncPoint"); sp.IsValid() && sp.Bool() {
+					continue
+				}
 				f := v.FieldByName("simpleQueryPacket")
 				if !f.IsValid() {
 					panic("harness: queryPacket.simpleQueryPacket not found")
@@ -311,18 +315,23 @@ func (d *pgDriver) pending() []string {
 	return out
 }
 
-// complete lets the real protocol state see a CommandComplete from the database (what
-// ProxyDatabaseConnection does for every database packet before relaying it).
+// complete lets the real protocol state see the end of a simple query's response from the database:
+// CommandComplete followed by ReadyForQuery (what ProxyDatabaseConnection shows it for every database packet
+// before relaying it).
 func (d *pgDriver) complete() error {
-	msg := pgMessage('C', []byte("SELECT 1\x00"))
-	ph, err := postgresql.NewDbSidePacketHandler(bytes.NewReader(msg), bufio.NewWriter(io.Discard), log.NewEntry(log.StandardLogger()))
-	if err != nil {
-		return err
+	for _, msg := range [][]byte{pgMessage('C', []byte("SELECT 1\x00")), postgresql.ReadyForQuery} {
+		ph, err := postgresql.NewDbSidePacketHandler(bytes.NewReader(msg), bufio.NewWriter(io.Discard), log.NewEntry(log.StandardLogger()))
+		if err != nil {
+			return err
+		}
+		if err := ph.ReadPacket(); err != nil {
+			return err
+		}
+		if err := d.state.HandleDatabasePacket(ph); err != nil {
+			return err
+		}
 	}
-	if err := ph.ReadPacket(); err != nil {
-		return err
-	}
-	return d.state.HandleDatabasePacket(ph)
+	return nil
 }
 
 func hexList(xs []string) string {
@@ -346,6 +355,7 @@ func opPgSession(a []string) string {
 	if err != nil {
 		return "cfgerr"
 	}
+	defer cleanupFiles(cfg)
 	defer censor.ReleaseAll()
 	d, err := newPgDriver(censor)
 	if err != nil {
